@@ -430,8 +430,12 @@ def run(chk):
         a._internal_mods = dict(a._internal_mods or {})
         for _k in range(rng.randint(1, 2)):
             a._internal_mods[rng.choice([-1, n, n + 1, -n, 2 * n, rng.randint(0, n - 1) + n])] = [Mod(rng.choice(annot.NAMED), 1)]
+        if rng.random() < 0.4:
+            from peptacular.proforma.proforma_dataclasses import Interval
+            hi = rng.randint(1, n)
+            a._intervals = (a._intervals or []) + [Interval(hi, rng.randint(0, hi - 1), False, [Mod(1, 1)])]   # start > end
         ill.append(a)
-        chk.count('ill-formed (mods outside the sequence)')
+        chk.count('ill-formed (mods outside the sequence / interval with start > end)')
 
     def nontrivial(c, im):
         f = c[1].split('|')
@@ -439,9 +443,15 @@ def run(chk):
 
     cases = build_cases(chk, anns, tier, corr=True)
     illc = build_cases(chk, ill, 'quick', corr=True)
-    for op in CORR_OPS:
-        chk.correspond(op, DRV, cases[op] + illc[op], line_of, impl_of,
-                       compare=lambda im, m: im == canon_reply(m), nontrivial_fn=nontrivial)
+    from peptacular.proforma.proforma_parser import ProFormaAnnotation as PA
+    cover = cc.LineCover([PA.slice, PA.shift, PA.shuffle, PA.reverse, PA.split, PA.sort_residues, PA.has_mods])
+    with cover:
+        for op in CORR_OPS:
+            chk.correspond(op, DRV, cases[op] + illc[op], line_of, impl_of,
+                           compare=lambda im, m: im == canon_reply(m), nontrivial_fn=nontrivial)
+    unc = {k: v for k, v in cover.report().items() if v}
+    chk.notes.append('reach: lines of the modelled functions not executed by the correspondence inputs: '
+                     + (json.dumps(unc) if unc else 'none'))
     if tier == 'thorough':
         chk.exhaustive = True   # i,j and shift amounts are enumerated completely for every generated annotation
 
